@@ -138,3 +138,61 @@ def const_str(e) -> Optional[str]:
     if isinstance(e, ast.Constant) and isinstance(e.value, str):
         return e.value
     return None
+
+
+# ---------------------------------------------------------------- stale bindings
+
+
+def rebound_globals(repo: Repo):
+    """Module-level names that are re-bound at run time: {(module rel, name): [where]}."""
+    out = {}
+    for f in repo.pkg_funcs():
+        gl = {nm for s in ast.walk(f.node) if isinstance(s, ast.Global) for nm in s.names}
+        for x in body_nodes(f.node):
+            if isinstance(x, (ast.Assign, ast.AugAssign, ast.AnnAssign)):
+                tgs = x.targets if isinstance(x, ast.Assign) else [x.target]
+                for t in tgs:
+                    if isinstance(t, ast.Name) and t.id in gl:
+                        out.setdefault((f.module.rel, t.id), []).append(f"{f.key}:{x.lineno}")
+                    if isinstance(t, ast.Attribute) and isinstance(t.value, ast.Name):
+                        r = repo.resolve_name(f.module, t.value.id)
+                        if r and r[0] == "module" and t.attr in r[1].globals_assigned:
+                            out.setdefault((r[1].rel, t.attr), []).append(f"{f.key}:{x.lineno}")
+    return out
+
+
+def stale_bindings(repo: Repo, rep, names, why: str):
+    """No module copies a re-bound module global with `from mod import name`."""
+    rid = "R-STALE-BINDING"
+    rep.rule(
+        rid,
+        "a module-level name that is re-bound at run time (`_config.config` in pytest_configure, the compare-only flag, the current state, the problem set) is "
+        "never copied into another module with `from <module> import <name>`: the copy keeps the object of import time and silently ignores every later re-binding; "
+        "it is read through the module attribute or an accessor function",
+    )
+    rb = rebound_globals(repo)
+    n = 0
+    for (rel, name), where in sorted(rb.items()):
+        if names is not None and name not in names:
+            continue
+        n += 1
+        src = repo.modules[rel]
+        bad = False
+        for m in repo.modules.values():
+            if m.rel == rel or m.rel.startswith("@"):
+                continue
+            for x in ast.walk(m.tree):
+                if isinstance(x, ast.ImportFrom):
+                    for a in x.names:
+                        if a.name == name:
+                            # resolve the module of this import
+                            tgt = m.imports.get(a.asname or a.name)
+                            if tgt and repo.module_of(tgt[0]) is src:
+                                rep.violation(rid, m, x, f"{m.rel} copies `{name}` out of {rel} with a from-import, but {where[0]} re-binds it at run time: {why}", construct=f"{m.rel}:{name}")
+                                bad = True
+        if not bad:
+            rep.ok(rid, src, None, f"`{name}` (re-bound in {where[0]}) is only read through its module/accessor", site=f"{PKG_PREFIX}{rel}: global {name}")
+    rep.floor(rid, "re-bound module globals in scope", n, 1)
+
+
+PKG_PREFIX = "src/inline_snapshot/"
